@@ -1,6 +1,7 @@
 import DoviModel.Model.Ops
 import DoviModel.Model.Generate
 import DoviModel.Proofs.Rpu
+import DoviModel.Proofs.ParseWf
 import DoviModel.Props.SourceTie
 /-! # C03 — every emitted RPU is well-formed and decodes to what was written (theorems; extended in Proofs/) -/
 namespace Dovi.C03
@@ -151,5 +152,76 @@ theorem source_layouts_agree :
   ⟨SourceTie.parse_layout_from_source, SourceTie.write_layout_from_source, SourceTie.bytes_from_source,
    SourceTie.required_from_source, SourceTie.dm_parse_from_source, SourceTie.dm_write_from_source,
    SourceTie.signed_from_source⟩
+
+/-! ## every parse result is inside the hypothesis of `write_parse_sound` (parse → shape), proved bottom-up in
+`Proofs/ParseWf.lean` -/
+
+/-- every RPU the parser returns is inside the hypothesis of `write_parse_sound` -/
+theorem parsed_rpu_is_wf (bytes : Bytes) (r : Rpu) (hp : parseRpu bytes = .ok r)
+    (hs : ∀ m, r.rpu_data_mapping = some m → m.seSmall = true) : RpuWf r :=
+  parseRpu_wf bytes r hp hs
+
+/-- hence: whatever the parser returned, once it is written the output decodes to it again (no shape hypothesis
+left; `seSmall` is the `f64` bound of the third-party `get_se`) -/
+theorem parsed_rpu_write_parse_sound (bytes out : Bytes) (r : Rpu) (hp : parseRpu bytes = .ok r)
+    (hs : ∀ m, r.rpu_data_mapping = some m → m.seSmall = true) (hw : writeRpu r = .ok out) :
+    ∃ crc, parseRpu out = .ok { r with rpu_data_crc32 := crc, modified := false } ∧
+      (r.modified = false → crc = r.rpu_data_crc32) :=
+  write_parse_sound r out hw (parsed_rpu_is_wf bytes r hp hs)
+
+/-- `rpu_data_header`: every parsed header has the shape `Header.Wf` (absent parts at their defaults, derived
+`coefficient_log2_denom_length`, packed `el_bit_depth`/`ext_mapping_idc` in range) -/
+theorem parsed_header_is_wf (s t : Bits) (h : Header) (hp : parseHeader s = .ok (h, t)) : h.Wf = true :=
+  ParseWf.parseHeader_wf hp
+
+/-- one extension block: every parsed block belongs to its container, carries at least the fields its length
+variant writes, and is in wire-normal form (re-encoding and re-decoding its values — incl. the 13-bit two's
+complement L2 `ms_weight` and the folded L11 whitepoint byte — gives the same block) -/
+theorem parsed_block_is_wf (allowed other : List Nat) (s t : Bits) (b : Block)
+    (hp : parseBlock allowed other s = .ok (b, t)) : BlockFits allowed other b ∧ b.reparsed = b :=
+  ParseWf.parseBlock_wf hp
+
+/-- a whole extension-block container -/
+theorem parsed_container_is_wf (allowed other : List Nat) (s t : Bits) (c : Container)
+    (hp : parseContainer allowed other s = .ok (c, t)) : ContainerOk allowed other c ∧ c.reparsed = c :=
+  ParseWf.parseContainer_wf hp
+
+/-- `vdr_dm_data`: compressed flag from the header, 32 main values each in the range of its coding (wire-normal),
+CM v2.9 always present, and without CM v4.0 fewer than 56 bits follow -/
+theorem parsed_dm_is_wf (h : Header) (s t : Bits) (d : DmData) (hp : parseDmData h s = .ok (d, t)) :
+    (h.reserved_zero_3bits == 1) = d.compressed ∧ d.main.length = 32 ∧ d.reparsed = d ∧
+    (∃ c, d.cmv29 = some c ∧ ContainerOk cmv29Levels cmv40Levels c) ∧
+    (∀ c, d.cmv40 = some c → ContainerOk cmv40Levels cmv29Levels c) ∧
+    (d.cmv40 = none → t.length < 56) :=
+  ParseWf.parseDmData_wf hp
+
+/-- `read_rpu_data` on any bit string (no whole-bytes assumption): a validated result is `RpuWf` -/
+theorem parsed_rpu_data_is_wf (bits rest : Bits) (r : Rpu) (hp : readRpuData bits = .ok (r, rest))
+    (hval : r.validate = true) (hs : ∀ m, r.rpu_data_mapping = some m → m.seSmall = true) : RpuWf r :=
+  ParseWf.readRpuData_wf hp hval hs
+
+/-! ### non-vacuity: the bytes written for `exRpu` are accepted by the parser, with a mapping inside the bound -/
+
+def exBytes : Bytes :=
+  match writeRpu exRpu with
+  | .ok b => b
+  | _ => []
+
+example : ∃ r, parseRpu exBytes = .ok r ∧ r.rpu_data_mapping.isSome = true ∧ r.vdr_dm_data.isSome = true ∧
+    (∀ m, r.rpu_data_mapping = some m → m.seSmall = true) := by
+  have hw : writeRpu exRpu = .ok exBytes := by
+    have hok := exRpu_wf.2
+    unfold exBytes
+    cases h : writeRpu exRpu with
+    | ok b => rfl
+    | error => rw [h] at hok; cases hok
+    | panic => rw [h] at hok; cases hok
+  obtain ⟨crc, hp, _⟩ := write_parse_sound exRpu exBytes hw exRpu_wf.1
+  refine ⟨_, hp, (by decide : exRpu.rpu_data_mapping.isSome = true), (by decide : exRpu.vdr_dm_data.isSome = true), ?_⟩
+  intro m hm
+  have hall : exRpu.rpu_data_mapping.all Mapping.seSmall = true := by decide
+  have hm' : exRpu.rpu_data_mapping = some m := hm
+  rw [hm'] at hall
+  exact hall
 
 end Dovi.C03
